@@ -85,7 +85,8 @@ namespace via
         switch (state_)
         {
         case Header::NAME:
-          if (std::isalpha(c) || ('-' == c))
+          // a field name is a token, see RFC 7230 section 3.2.6
+          if (is_token(c) && (static_cast<unsigned char>(c) < 0x80))
             name_.push_back(static_cast<char>(std::tolower(c)));
           else if (':' == c)
             state_ = Header::VALUE_LS;
